@@ -48,6 +48,18 @@ def err_payload_kind(body, ops):
 
 def assigned_states(body, val_term_or_rv):
     v = mirlib.rvalue_variant(body, val_term_or_rv)
+    if v is None and isinstance(val_term_or_rv, dict):
+        # not a literal State::X: follow the value (through `?`, let-else, a helper's return ..) to the variants it can be
+        t = strip_refs(mirlib.simplify(body._origin_def(('stmt', 0, 0, val_term_or_rv), 0, set())))
+        alts = t[1] if t and t[0] == 'phi' else [t]
+        out = set()
+        for a in alts:
+            a = strip_refs(a)
+            if a and a[0] == 'agg' and (a[1].get('adt') or '').endswith('decode::State'):
+                out |= err_payload_kind(body, a[2]) if a[1].get('variant') == 'Error' else {'Live'}
+            else:
+                return {'Live', 'ErrSome', 'ErrNone'}
+        return out or {'Live', 'ErrSome', 'ErrNone'}
     if v is None:
         return {'Live', 'ErrSome', 'ErrNone'}
     adt, variant, ops = v
@@ -298,7 +310,7 @@ def run(R):
         dc = tonic.body('decode::StreamingInner::decode_chunk')
         db, dt = dc.call1(pat='compression::decompress')
         # switch on the result: Err edge leads to an Err return built by Status::internal
-        errs = [(bb, i, ops) for bb, i, p, a, ops in mirlib.aggregates(dc, 'result::Result', 'Err') if p['l'] == 0]
+        errs = [(bb, i, ops) for bb, i, p, a, ops in mirlib.aggregates(dc, 'result::Result', 'Err')]
         hit = False
         for bb, i, ops in errs:
             gs = dc.edge_guards(bb)
